@@ -26,6 +26,7 @@ import (
 	"github.com/pkg/errors"
 	"github.com/prometheus/prometheus/config"
 	"github.com/prometheus/prometheus/model/labels"
+	"gopkg.in/yaml.v2"
 )
 
 const (
@@ -113,11 +114,18 @@ func (c *ConfigManager) ReloadFromRaw(data []byte) (err error) {
 	eLb := info.Config.GlobalConfig.ExternalLabels
 	info.Config.GlobalConfig.ExternalLabels = []labels.Label{}
 	// hashstructure skips unexported fields, e.g. the regular expressions of relabel configs,
-	// so the rendered config is hashed together with the parsed struct
+	// so the rendered config is hashed together with the parsed struct.
+	// a password inside a URL (user:password@host) is an unexported field too and is redacted when the
+	// config is rendered, so the raw content is hashed as well, in a form that does not depend on formatting
+	canonical, err := canonicalRawContent(data)
+	if err != nil {
+		return errors.Wrapf(err, "get config hash")
+	}
 	hash, err := hashstructure.Hash(struct {
 		Config   *config.Config
 		Rendered string
-	}{info.Config, info.Config.String()}, hashstructure.FormatV2, nil)
+		Raw      string
+	}{info.Config, info.Config.String(), canonical}, hashstructure.FormatV2, nil)
 	if err != nil {
 		return errors.Wrapf(err, "get config hash")
 	}
@@ -133,6 +141,27 @@ func (c *ConfigManager) ReloadFromRaw(data []byte) (err error) {
 	}
 
 	return nil
+}
+
+// canonicalRawContent parses the raw content generically and marshals it again (map keys sorted, comments,
+// quoting and layout gone), without the external labels, which the config hash must not depend on
+func canonicalRawContent(data []byte) (string, error) {
+	raw := map[string]interface{}{}
+	if err := yaml.Unmarshal(data, &raw); err != nil {
+		return "", err
+	}
+
+	if global, ok := raw["global"].(map[interface{}]interface{}); ok {
+		delete(global, "external_labels")
+		if len(global) == 0 {
+			delete(raw, "global")
+		}
+	} else if raw["global"] == nil {
+		delete(raw, "global")
+	}
+
+	out, err := yaml.Marshal(raw)
+	return string(out), err
 }
 
 // UpdateExtraConfig set new extra config
